@@ -2,6 +2,7 @@ import JominiModel.Proofs.BinCut
 import JominiModel.Proofs.TextTapeCut
 import JominiModel.Proofs.BinTapeCut
 import JominiModel.Proofs.TextDeCut
+import JominiModel.Proofs.BinDeCut
 /-
 C19 — Truncated documents never yield fabricated data.
 
